@@ -257,7 +257,7 @@ class _Stmt(ast.NodeTransformer):
             if isinstance(s, ast.Assign) and len(s.targets) == 1 and isinstance(s.targets[0], ast.Name) and nxt is not None and self._fn_uses.get(s.targets[0].id) == 2:
                 nm = s.targets[0].id
                 head = None
-                if _bool_typed(s.value) and isinstance(nxt, ast.If):
+                if (isinstance(s.value, (ast.BoolOp, ast.Compare)) or _bool_typed(s.value)) and isinstance(nxt, ast.If):
                     head = "test"
                 elif isinstance(s.value, (ast.Constant, ast.Tuple)) and all(isinstance(e, ast.Constant) for e in getattr(s.value, "elts", [])) \
                         and isinstance(nxt, ast.Expr) and isinstance(nxt.value, ast.Call):
